@@ -4,11 +4,14 @@ _TB = [KERNEL_TB, HARNESS_TB,
        "extract/guards flattening rules (shared with C12, notes/C12.md); sweeps: only the first test of BreakerEnable in each named "
        "sweep / starter function is interpreted",
        "message atomicity = baseapp message cache, modelled by applyIfNoError and re-enacted by the harness (branch written back only on success)",
-       "oracle: the model of GetLatestPrice / CalcAssetPrice is `found && active`; C17 proves when a record is active"]
+       "oracle: the model of GetLatestPrice / CalcAssetPrice is `found && active`; C17 proves when a record is active",
+       "ESM price snapshot: Model/EsmSnapshot.lean (`snapshotStep` = one esm BeginBlocker block of SnapshotOfPrices) is tied to the real "
+       "BeginBlocker block by block (TestC14Snapshot); which snapshot entries a consumer needs = the entries the real handler was "
+       "observed to read (store tracer)"]
 
 PROP = dict(
     title="Emergency controls fail closed: breaker and shutdown stop position changes",
-    lean_modules=["Comdex.Props.C14"],
+    lean_modules=["Comdex.Props.C14", "Comdex.Props.C14Snapshot"],
     namespaces=["Comdex.C14"],
     gen=["guards"],
     required_theorems=["Comdex.C14.breaker_blocks", "Comdex.C14.esm_blocks", "Comdex.C14.inactive_price_fails_closed",
@@ -18,8 +21,12 @@ PROP = dict(
                        "Comdex.C14.no_price_error_swallowed", "Comdex.C14.price_errors_never_overwritten",
                        "Comdex.C14.price_errors_ignored_pinned", "Comdex.C14.twa_reads_test_own_activity",
                        "Comdex.C14.twa_reads_pinned", "Comdex.C14.price_swallow_reviewed_tight", "Comdex.C14.price_guard_pinned",
-                       "Comdex.C14.sweeps_skip_controlled", "Comdex.C14.sweeps_pinned", "Comdex.C14.spec_lists"],
-    harness_tests=["TestC14"],
+                       "Comdex.C14.sweeps_skip_controlled", "Comdex.C14.sweeps_pinned", "Comdex.C14.spec_lists",
+                       "Comdex.C14.snapshot_entries_only_from_active", "Comdex.C14.snapshot_completes_only_when_all_active",
+                       "Comdex.C14.snapshot_status_false_while_inactive", "Comdex.C14.snapshot_price_only_from_active",
+                       "Comdex.C14.never_active_no_snapshot_price", "Comdex.C14.never_active_unavailable",
+                       "Comdex.C14.snapshot_entry_never_changes", "Comdex.C14.snapshot_monitor_sound"],
+    harness_tests=["TestC14", "TestC14Snapshot"],
     trusted_base=_TB,
     assumptions=["'draw from' is read as drawing debt (vault MsgDraw, lend Draw): withdrawing from a locker or a lend position under the "
                  "breaker is not demanded by the text (lend withdraw is guarded anyway, locker withdraw/close is not; both recorded)",
@@ -29,7 +36,10 @@ PROP = dict(
          "needed asset off / all needed off / only the unneeded off (thorough: every non-empty subset), each as inactive and as missing "
          "record; the needed set is the handler's observed read set of TWA records), one price-reading begin-block unit (V2 sweep of a "
          "fixed-price-debt vault, auction price update / restart of both generations) under the same feed subsets, or one real "
-         "BeginBlocker sweep; distinct = "
+         "BeginBlocker sweep; TestC14Snapshot: one case = one shut-down app (real MsgExecuteESM) whose feeds follow a schedule "
+         "(directed: each needed / an unneeded / all feeds inactive or missing from the shutdown on, never back or back with a fresh price; "
+         "random schedules) while the real esm.BeginBlocker runs block after block, with the vault withdrawals inside the cool-off, the "
+         "redemption set-up and MsgCollateralRedemption after it; distinct = "
          "distinct trace text, non-trivial = the same message succeeds with all controls clear",
 )
 
@@ -42,6 +52,9 @@ META = dict(
          "regenerated from /repo: every handler the text names has the breaker guard (18) resp. the ESM guard (5 debt-minting handlers) "
          "on every route to success before its first write; no price-lookup error is swallowed; all 7 liquidation sweeps / auction "
          "starters test the breaker in the skipping direction before any write. The harness runs every handler under every control "
-         "setting on the real app and the real BeginBlockers for a controlled app.",
+         "setting on the real app and the real BeginBlockers for a controlled app. After a shutdown: the price snapshot only ever "
+         "takes the TWA of a found, active feed and completes only in a block without an inactive feed, for every sequence of blocks "
+         "and feed states (induction); the real esm.BeginBlocker is replayed on that model block by block and the snapshot's consumers "
+         "(vault withdraw, redemption set-up, collateral redemption) are refused while a price they need has never been active.",
     note="Trusted: Lean kernel, extractor flattening, baseapp message cache (modelled), harness generators. Reading of 'draw from' see assumptions.",
 )
